@@ -813,9 +813,9 @@ func TestVerifDecoder(t *testing.T) {
 			// error, or a result the decoder itself flags as partial - nothing else
 			strict := in.HasRecs && (in.HasCrc || in.Wrapped) && c.Strict
 			ev := kv{"type": in.Name, "ver": in.Ver, "ci": d.B.Ci, "kind": c.Kind, "trig": c.Trig, "prim": c.Prim, "caller": c.Caller,
-				"fix": c.Fix, "pos": c.Pos, "runver": c.RunVer, "strict": strict, "mustfail": c.MustFail, "partial": d.R.Partial, "allow": in.Allow, "inlen": d.B.InLen, "comp": in.Comp, "dmg": dmg,
+				"fix": c.Fix, "pos": c.Pos, "runver": c.RunVer, "strict": strict, "mustfail": c.MustFail, "truncok": c.TruncOK, "partial": d.R.Partial, "allow": in.Allow, "inlen": d.B.InLen, "comp": in.Comp, "dmg": dmg,
 				"res": d.R.Res, "err": d.R.Err, "site": d.R.Site, "asite": d.R.ASite, "cause": d.R.Cause, "alloc": d.R.Alloc, "got": d.R.Got, "hex": d.B.Hex}
-			rec.Ev("dec", kv{"inlen": d.B.InLen, "comp": in.Comp, "dmg": dmg, "strict": strict, "mustfail": c.MustFail, "partial": d.R.Partial, "allow": in.Allow,
+			rec.Ev("dec", kv{"inlen": d.B.InLen, "comp": in.Comp, "dmg": dmg, "strict": strict, "mustfail": c.MustFail, "truncok": c.TruncOK, "partial": d.R.Partial, "allow": in.Allow,
 				"res": d.R.Res, "alloc": d.R.Alloc, "got": d.R.Got})
 			det.Ev("dec", ev)
 			nDec++
